@@ -52,6 +52,30 @@ CLAIMED = {
              "(symbolic casing mask), reverse lookups of every code, data-type codes, all 256 status bytes and every (status, extended status) pair.",
         design="4/C19", technique="symbolic execution of the real MapMeta lookups with a symbolic casing mask (CrossHair/z3) + exhaustive reverse enumeration",
         note="ASCII str.lower model and linear-scan dict model are part of the trusted base; member names are checked to be ASCII."),
+    "C03": dict(
+        text="Bounded symbolic scenario checking: request lists of 1..3 (4) reads / 1..2 (3) writes where every slot is a symbolic choice among 10/11 valid and invalid "
+             "request kinds (enumerated by the engine, duplicates included) with symbolic memory/values: result shape, order, names, falsy-with-error for invalid requests, "
+             "unchanged outcome of the valid ones (value equality against the reference controller's memory), no exception.",
+        design="4/C03", technique="symbolic execution of the real driver against a reference target with a symbolic choice vector (CrossHair/z3)",
+        note="Request kinds are a fixed table; list length <= 3/4."),
+    "C04": dict(
+        text="Bounded symbolic checking with SYMBOLIC SIZES: the real request builders run with value lengths (symbolic-length bytes), structure sizes, element counts and the "
+             "connection size (64..4000) as symbolic variables; every returned packet is framed by the real build_request and measured; the reply size of every read is "
+             "computed by the reference model. Plus driver-level fragmented reads with a symbolic target fragment capacity and Forward-Open size negotiation.",
+        design="4/C04", technique="symbolic execution of the real request builders with symbolic sizes (CrossHair/z3)",
+        note="'Connection size' read leniently (CIP message without the sequence count). Fragment loops beyond the driver-level scenarios (<= 4 fragments) are not unrolled further."),
+    "C12": dict(
+        text="Bounded symbolic checking of Socket.receive/send: the real source is interpreted (AST->z3, path merging) with recv chunks as z3 sequences of symbolic length 0..256 "
+             "and content, empty chunks (peer closed) and socket errors at any call; unwinding bound 3+3 (4+4) recv calls, 4 (6) send calls; complemented by CrossHair runs over "
+             "small frames cut at symbolic positions and one-byte chunking.",
+        design="4/C12", technique="AST->z3 symbolic interpretation of the real loops with unwinding assumptions (z3 sequences) + CrossHair",
+        note="recv/send stubs are the environment contract; counterexamples are replayed on the real Socket with a scripted raw socket."),
+    "C17": dict(
+        text="Inductive step lemma for the real cycle() loop body (AST->z3): for every counter state in the invariant the yielded count fits 16 bits, the invariant is preserved and the next "
+             "count differs (covers histories of any length), base case, native two-period cross-check; plus driver scenarios (reads, writes, fragmented, generic, upload) positioned "
+             "0..6 draws before the wrap against a reference controller that rejects repeated counts.",
+        design="4/C17", technique="inductive step over the real generator body (AST->z3) + symbolic execution of driver scenarios across the wrap (CrossHair/z3)",
+        note="Generator shape (single yield in while True) is checked on the AST; a call constructing >= 65534 packets between two sends is outside the claim."),
 }
 NA_REASON = "check not landed yet in this revision of /verif (work in progress; see DESIGN.md section 4 for the planned obligations)"
 
